@@ -35,15 +35,13 @@ ASSUMPTIONS = [
     '(CPython 3.12.1: unpicklable return value -> raised=AttributeError/PicklingError; SystemExit -> raised=SystemExit, exit code 0; '
     'SIGINT while the function runs -> raised=KeyboardInterrupt, exit code 0; SIGINT during boot -> neither, exit code 1 or -2)',
     'cancellation of the task that awaits the handle is outside the quantifier of C17 and not modelled',
-"'raise' covers a family of classes (WorkerError, ValueError, KeyboardInterrupt raised by the function, asyncio.CancelledError, GeneratorExit, "
-    "a custom BaseException, StopAsyncIteration): `raised` must be an instance of the class the function raised, with the same args; these all take "
-    "the `except BaseException as e` path of _run and are one behaviour (Exn) of the model",
-    "an exception that cannot be pickled in the child is the behaviour Unpicklable (the pickling error arrives as `raised`), like an unpicklable return value",
-    "trusted about the family: pickling by reference of the exception classes of harness/proc_workers.py in both processes; which classes do not travel "
-    "faithfully is read from the runs, not derived: StopIteration (asyncio Future.set_exception refuses it: TypeError inside the _chain_future._set_state "
-    "callback, the wrapped future is never resolved -> hang:future-never-completes), concurrent.futures.CancelledError (asyncio.futures._convert_future_exc "
-    "-> asyncio.CancelledError), an exception that cannot be rebuilt in the parent (the pool breaks on unpickling, the worker is terminated, exit code -15) "
-    "-- the three are behaviours ExnOdd of the model and known findings",
+"'raise' covers a family of classes (WorkerError, ValueError, KeyboardInterrupt raised by the function, asyncio.CancelledError, concurrent.futures.CancelledError, "
+    "GeneratorExit, a custom BaseException, StopIteration, StopAsyncIteration): `raised` must be an instance of the class the function raised, with the same args; they all travel "
+    "as data in the result of the wrapper `_call` and are one behaviour (Exn) of the model",
+    "an exception that cannot be pickled in the child or rebuilt in the parent is the behaviour Unpicklable (the pickling error arrives as "
+    "`raised`, exit code 0), like an unpicklable return value",
+    "trusted about the family: pickling by reference of the exception classes of harness/proc_workers.py in both processes; "
+    "concurrent.futures.process._ExceptionWithTraceback (used by the wrapper `_call` to carry the remote traceback as __cause__)",
 ]
 
 SIGNUM = {'SIGINT': 2, 'SIGTERM': 15, 'SIGKILL': 9}
@@ -137,21 +135,18 @@ def plain_family(rng, reps=1):
 
 
 # exception classes that matter to the handler chain of run_in_process._run (kinds of harness/proc_workers.EXC_KINDS)
-EXC_CONFORMING = ['worker', 'value', 'kbint', 'aio_cancelled', 'genexit', 'custom_base', 'stopaiter']
-# cannot be pickled in the child: treated exactly like the 'unpicklable' return (the pickling error arrives as `raised`)
-EXC_UNPICKLABLE = ['unpicklable_exc']
-# known findings (known_findings.json): the transport does not carry these classes faithfully
-EXC_FINDINGS = ['cf_cancelled', 'unloadable_exc']
-EXC_HANGS = ['stopiter']            # known finding hang:future-never-completes: every run costs its timeout
-HANG_TIMEOUT = 5
+EXC_CONFORMING = ['worker', 'value', 'kbint', 'aio_cancelled', 'cf_cancelled', 'genexit', 'custom_base', 'stopiter', 'stopaiter']
+# cannot be pickled in the child / cannot be rebuilt in the parent (the wrapper `_call` checks by a pickle round trip in the
+# worker): treated exactly like the 'unpicklable' return (the pickling error arrives as `raised`, exit code 0)
+EXC_UNPICKLABLE = ['unpicklable_exc', 'unloadable_exc']
 
 
-def exc_family(rng, hangs: bool):
+def exc_family(rng):
     """the function raises an exception of each class, with/without log collection and initializer (no timing involved)"""
     out = []
-    for k in EXC_CONFORMING + EXC_UNPICKLABLE + EXC_FINDINGS + (EXC_HANGS if hangs else []):
+    for k in EXC_CONFORMING + EXC_UNPICKLABLE:
         for clog, init in CFGS:
-            out.append(S('raise', rng.choice([1, 3, 7]), clog, init, None, exc=k, timeout=HANG_TIMEOUT if k in EXC_HANGS else None))
+            out.append(S('raise', rng.choice([1, 3, 7]), clog, init, None, exc=k))
     return out
 
 
@@ -234,7 +229,7 @@ def storm_family(rng, reps=1):
 def gen_scenarios(rng, tier: str) -> list[dict]:
     if tier == 'quick':
         scn = plain_family(rng)                                               # 20
-        scn += exc_family(rng, hangs=False)                                   # 40 (+ one StopIteration run from the corpus)
+        scn += exc_family(rng)                                                # 44
         scn += running_family(rng, ['interrupt', 'terminate', 'kill'])        # 12
         scn += boot_family(rng, [0.0, 0.03, 0.08, 0.12])                      # 12
         scn += race_family(rng, [-0.01, 0.0, 0.004, 0.01])                    # 12
@@ -243,7 +238,7 @@ def gen_scenarios(rng, tier: str) -> list[dict]:
         scn += storm_family(rng)                                              # 3: return, raise, killed
     else:
         scn = plain_family(rng, reps=3)                                       # 60
-        scn += exc_family(rng, hangs=True) + exc_family(rng, hangs=False)     # 84
+        scn += exc_family(rng) + exc_family(rng)                              # 88
         scn += running_family(rng) + running_family(rng)                      # 48
         scn += boot_family(rng, [i * 0.005 for i in range(0, 44)])            # 132
         scn += race_family(rng, [(-0.02 + i * 0.0015) for i in range(0, 60)]) # 180
@@ -259,8 +254,7 @@ def classify(scn: dict, o: dict):
     """-> (behaviour term, signal term or None, label dict)"""
     sp = scn['spec']
     out, n = sp['outcome'], int(sp.get('n', 0))
-    exc_beh = {'stopiter': f'ExnOdd OStopIteration {cz(n)}', 'cf_cancelled': f'ExnOdd OCfCancelled {cz(n)}',
-               'unloadable_exc': f'ExnOdd OUnloadable {cz(n)}', 'unpicklable_exc': 'Unpicklable'}.get(sp.get('exc', 'worker'), f'Exn {cz(n)}')
+    exc_beh = 'Unpicklable' if sp.get('exc') in EXC_UNPICKLABLE else f'Exn {cz(n)}'
     beh = {'return': f'Ret {cz(n)}', 'raise': exc_beh, 'unpicklable': 'Unpicklable', 'sysexit': f'SysExit {cz(n)}',
            'hardexit': f'HardExit {cz(n)}', 'block': f'Ret {cz(n)}', 'logloop': f'Ret {cz(n)}'}[out]
     s = scn.get('signal')
@@ -281,8 +275,6 @@ def exn_kind(name, scn=None, o=None) -> int:
         # the worker's own exception = an instance of the class the function raised
         if expected_exc_class(scn) in (o.get('raised_mro') or []):
             return 1
-        if o.get('raised_qual') == 'asyncio.exceptions.CancelledError':
-            return 5
     if name == 'WorkerError':
         return 1
     if name in PICKLE_TYPES:
